@@ -888,3 +888,129 @@ def rule_sibling_eq(check, rule):
             else:
                 check.holds(rule, st, '%s keeps the value-based __eq__ of %s' % (ci.name, fam.name), key=key)
     check.floor(rule, 'subclasses of a package class defining __eq__', n, 1)
+
+
+# ---------------------------------------------------------------------------
+# C14.R5 -- an iterable argument is traversed once, or materialised first
+
+TRAVERSERS = ('all', 'any', 'list', 'tuple', 'sorted', 'set', 'dict', 'sum', 'min', 'max', 'len', 'enumerate', 'zip', 'map', 'filter', 'iter')
+
+
+def rule_iterable_traversed_once(check, rule):
+    """C14.R5: inspect.Signature takes its parameters as *any iterable* (it builds a tuple from it once).  A drop-in subclass that looks at
+    the argument before handing it on -- "are they all upgraded?" -- has used up a generator by then, and the signature comes out
+    empty.  In the functions the `parameters` argument of UpgradedSignature(...) / .replace(...) flows through, the iterable must be
+    materialised (`list(...)`/`tuple(...)`, rebinding the name) before it is traversed, unless it is traversed only once in total
+    (handing it on / returning it counts as the traversal the receiver will make)."""
+    repo = check.repo
+    fi = repo.func(SIG + ':_upgrade_parameters_with_warning', required=False)
+    targets = []
+    if fi is not None:
+        targets.append((fi, fi.params()[0][0]))
+    n = 0
+    for fn, pname in targets:
+        check.analysed(fn)
+        n += 1
+        key = '%s|iterable-once|%s' % (fn.key, pname)
+        # statements in source order at the top level of the function; a rebinding `p = list(p)` / `tuple(p)` ends the hazard
+        uses = []        # (node, kind) kind in traverse / handoff
+        mat = None
+        for st_ in fn.node.body:
+            for x in ast.walk(st_):
+                if isinstance(x, ast.Assign) and len(x.targets) == 1 and isinstance(x.targets[0], ast.Name) and x.targets[0].id == pname \
+                        and isinstance(x.value, ast.Call) and isinstance(x.value.func, ast.Name) and x.value.func.id in ('list', 'tuple') \
+                        and len(x.value.args) == 1 and isinstance(x.value.args[0], ast.Name) and x.value.args[0].id == pname:
+                    if mat is None:
+                        mat = x
+            if mat is not None and any(x is mat for x in ast.walk(st_)):
+                break
+            for x in ast.walk(st_):
+                if isinstance(x, (ast.comprehension,)) and isinstance(x.iter, ast.Name) and x.iter.id == pname:
+                    uses.append((x.iter, 'traverse'))
+                elif isinstance(x, ast.For) and isinstance(x.iter, ast.Name) and x.iter.id == pname:
+                    uses.append((x.iter, 'traverse'))
+                elif isinstance(x, ast.Call) and isinstance(x.func, ast.Name) and x.func.id in TRAVERSERS and any(isinstance(a, ast.Name) and a.id == pname for a in x.args):
+                    uses.append((x, 'traverse'))
+        # after (or without) the materialisation: how many traversals/hand-offs could hit the *original* iterable?
+        if mat is not None and not uses:
+            check.holds(rule, site_of(fn, mat), '%s materialises %r before looking at it' % (fn.name, pname), key=key)
+            continue
+        handoffs = []
+        for x in ast.walk(fn.node):
+            if isinstance(x, ast.Return) and isinstance(x.value, ast.Name) and x.value.id == pname:
+                handoffs.append(x)
+        total_before = len(uses)
+        if mat is None:
+            # every path: traversals + (return of the same object, which the caller traverses again)
+            if total_before >= 1 and (handoffs or total_before >= 2):
+                check.violation(rule, site_of(fn, uses[0][0]), '%s traverses its argument %r (%s) and then %s: a one-shot iterable (a generator) is empty '
+                                'the second time, and the signature is built without parameters'
+                                % (fn.name, pname, norm(uses[0][0])[:40], 'returns the same object to be traversed again' if handoffs else 'traverses it again'),
+                                key=key, witness='UpgradedSignature(p for p in params) must equal inspect.Signature(p for p in params)')
+            else:
+                check.holds(rule, site_of(fn, fn.node), '%s traverses %r at most once' % (fn.name, pname), key=key)
+        else:
+            check.violation(rule, site_of(fn, uses[0][0]), '%s traverses %r (%s) before materialising it' % (fn.name, pname, norm(uses[0][0])[:40]), key=key,
+                            witness='UpgradedSignature(p for p in params)')
+    # the callers hand the raw argument to that helper before anything else looks at it
+    us = repo.cls('%s:UpgradedSignature' % SIG)
+    for mname in ('__init__', 'replace'):
+        m = us.methods.get(mname)
+        if m is None:
+            continue
+        calls = [c for c in ast.walk(m.node) if isinstance(c, ast.Call) and norm(c.func) == '_upgrade_parameters_with_warning']
+        key = 'UpgradedSignature.%s|iterable-once' % mname
+        if calls:
+            n += 1
+            check.holds(rule, site_of(m, calls[0]), 'UpgradedSignature.%s passes the parameter iterable through the helper (nothing else traverses it first)' % mname,
+                        key=key)
+    check.floor(rule, 'functions the parameters iterable flows through', n, 1)
+
+
+def rule_eq_does_not_evaluate(check, rule):
+    """C14.R1e: "== and != return a bool without raising".  UpgradedAnnotation.__eq__ compares the *evaluated* annotations
+    (`source_value()`), and UpgradedParameter/UpgradedSignature.__eq__ end in that comparison.  An implementation of
+    `source_value` that runs `eval` on source text (postponed annotations, PEP 563) outside a handler lets whatever the
+    evaluation raises -- NameError for a name imported under TYPE_CHECKING only -- out of the comparison."""
+    repo = check.repo
+    base = repo.cls('%s:UpgradedAnnotation' % SIG)
+    eq = base.methods.get('__eq__')
+    if eq is None:
+        check.holds(rule, '-', 'UpgradedAnnotation defines no __eq__ of its own', key='eq-evaluates|none', nontrivial=False)
+        return
+    check.analysed(eq)
+    called = set(c.func.attr for c in ast.walk(eq.node) if isinstance(c, ast.Call) and isinstance(c.func, ast.Attribute) and isinstance(c.func.value, ast.Name))
+    n = 0
+    for m in repo.modules.values():
+        for ci in m.classes.values():
+            if ci is not base and not any(r[0] == 'class' and r[1] is base for r in repo.class_bases(ci)):
+                continue
+            for mname in sorted(called):
+                meth = ci.methods.get(mname)
+                if meth is None:
+                    continue
+                n += 1
+                check.analysed(meth)
+                evals = [c for c in ast.walk(meth.node) if isinstance(c, ast.Call) and isinstance(c.func, ast.Name) and c.func.id in ('eval', 'exec')]
+                key = 'eq-evaluates|%s.%s' % (ci.name, mname)
+                unguarded = []
+                for c in evals:
+                    t = c
+                    guarded = False
+                    while getattr(t, '_parent', None) is not None and t is not meth.node:
+                        par = t._parent
+                        if isinstance(par, ast.Try) and t in par.body and any(
+                                h.type is None or norm(h.type).split('.')[-1] in ('Exception', 'BaseException') for h in par.handlers):
+                            guarded = True
+                        t = par
+                    if not guarded:
+                        unguarded.append(c)
+                if unguarded:
+                    check.violation(rule, site_of(meth, unguarded[0]), '%s.%s evaluates source text with %s(), and UpgradedAnnotation.__eq__ calls it without a '
+                                    'handler: comparing two signatures whose postponed annotation names something that does not exist at run time '
+                                    'raises instead of answering' % (ci.name, mname, unguarded[0].func.id), key=key,
+                                    witness='from __future__ import annotations; if TYPE_CHECKING: from decimal import Decimal; def f(a: Decimal): ...; '
+                                            'sigtools.signature(f) != signatures.signature(f) raises NameError')
+                else:
+                    check.holds(rule, site_of(meth, meth.node), '%s.%s does not evaluate source text (or does so under a handler)' % (ci.name, mname), key=key)
+    check.floor(rule, 'implementations reached from UpgradedAnnotation.__eq__', n, 2)
